@@ -87,6 +87,9 @@ def special_forms():
     out.append(("from-file-bad-extension-error", gen.simple_form([("select_one_from_file cities.txt", "c", {"label": "C"})]), {}))
     # both id headers: the converter drops one of them - from its own copy, not from the caller's workbook
     out.append(("both-id-headers", gen.simple_form([("text", "q", {"label": "Q"})], settings={"id_string": "ids", "form_id": "fid", "form_title": "t"}), {}))
+    # confusable neighbours for anything memoised per language label / subtag: same subtag in another letter case, padded, unknown
+    for v, lang in enumerate(["French (fr)", "French (FR)", "French ( fr )", "Fr (Fr)", "Klingon (tlh)", "Klingon (TLH)", "xx (zz)", "XX (ZZ)"]):
+        out.append((f"language-label-{v}", gen.simple_form([("text", "q", {f"label::{lang}": "L", f"hint::{lang}": "H"})], settings={"form_id": "lang"}), {}))
     # shared singletons: every form that mentions last-saved needs its own instance declaration
     for v in range(4):
         out.append((f"last-saved-{v}", gen.simple_form([("text", f"x{v}", {"label": "X", "default": "${last-saved#x%d}" % v}),
@@ -174,8 +177,12 @@ def run_shard(ctx):
     tables0 = hooks.snapshot_tables()
     tmpdir = os.environ.get("TMPDIR")
     base = {}
-    # -- pass 1: sequential, with temp-file ledger
-    for cid, kind, form, kw in batch:
+    # -- pass 1: sequential, with temp-file ledger.  Every other process meets the forms in its own order, so that anything remembered
+    #    from the *first* encounter (of a text, a language label, a file name) differs between the processes that aggregate() compares.
+    first_order = list(batch)
+    if ctx.shard % 2 == 1:
+        random.Random(f"first-pass|{ctx.seed}|{ctx.shard}").shuffle(first_order)
+    for cid, kind, form, kw in first_order:
         with hooks.audit_window() as aw:
             o = conv(form, kw)
         d = digests(o)
@@ -386,11 +393,11 @@ def aggregate(agg, plan_, tier, seed):
                 b = batch.get(cid)
                 kind = b[1] if b else "?"
                 agg["viols"].append({"t": "viol", "key": f"hashseed-dependence:{cid.split(':')[0]}{':' + cid.split(':')[1] if kind == 'special' else ''}:{fd}",
-                                     "what": f"{cid}: {fd} differs between PYTHONHASHSEED={ref['hs']} and PYTHONHASHSEED={r['hs']}",
+                                     "what": f"{cid}: {fd} differs between two fresh processes (PYTHONHASHSEED={ref['hs']} vs {r['hs']}; every other process also meets the batch in its own order, so this is a hash-seed or a first-encounter-order dependence)",
                                      "witness": common.witness(b[2], case=cid, hashseeds=[ref["hs"], r["hs"]], render_kw=b[3]) if b else {"case": cid}})
                 break
     agg["counters"]["cross_process_groups"] = groups
-    agg["extra_coverage"] = {"hash_seeds": plan_["seeds"], "histories": ["sequential", "permutations", "confusable+gc", "to_xml x3", "same dict twice", "threads"]}
+    agg["extra_coverage"] = {"hash_seeds": plan_["seeds"], "histories": ["sequential (own first-pass order in every other process)", "permutations", "confusable+gc", "to_xml x3", "regeneration after refusal", "same dict twice", "threads", "threads focused on shared singletons"]}
 
 
 def replay(w):
